@@ -126,6 +126,10 @@ def check_lexer_options(repo: Repo, run: Run) -> None:
 
 
 def check(repo: Repo, run: Run) -> None:
+    take_over(run, "c13", "C13", repo, lambda o: o["rule"] == "R5" and o["scope"] == "traces" and o["construct"].startswith("events: class stage"),
+              "R0", "the records that declare threads are always read", "the trace class carries the records that declare threads and "
+              "processes: if a filtered request does not read them behind the scenes, the process column keeps the stale "
+              "thread-map entry (or shows an unknown thread) for threads the dump did declare", 2)
     take_over(run, "c02", "C02", repo, lambda o: o["rule"] == "R3" and "name is a NUL-terminated string" in o["construct"], "R0",
               "process names of the thread map", "the process column prints the name the thread map gives: a name field read past "
               "its terminator prints left-over bytes of an earlier name", 1)
@@ -248,6 +252,10 @@ def check(repo: Repo, run: Run) -> None:
     run.floor("R2", "parser construction sites", n_sites, 2)
     for modname, cname, pos in (("kd_buf_parser", "KdBufParser", (1, 2)), ("traces_parser", "TracesParser", (2, 3))):
         ci = repo.cls(modname, cname)
+        if "__init__" not in ci.methods:
+            # a class whose constructor is generated (a dataclass, with the tables settled in __post_init__ or by field defaults)
+            run.floor_failures.append(f"C14/R2: {cname} has no __init__ of its own: whether it keeps the tables it is given is not decided")
+            continue
         fn = ci.methods["__init__"]
         rec = interp.run(ci.module, fn, self_cls=ci)
         for attr, idx in zip(("threads_pids", "pids_names"), pos):
